@@ -63,13 +63,13 @@ CORPUS_DIR = fw.VERIF / "corpus" / "C02"
 # ----------------------------------------------------------------------------- case generation
 
 
-def make_case(seed_text):
+def make_case(seed_text, profile="c02"):
     """A stored case: schema SDL, a pool of documents, a request sequence (all JSON-able)."""
     from graphql import build_schema
 
     rng = random.Random(seed_text)
     for _ in range(20):
-        info = G.gen_schema(rng)
+        info = G.gen_schema(rng, profile)
         sdl = G.schema_sdl(info)
         try:
             from graphql import assert_valid_schema
@@ -84,7 +84,7 @@ def make_case(seed_text):
     docs = []
     for _ in range(1 if rng.random() < 0.6 else 2):
         invalid = rng.random() < 0.18
-        d = G.gen_document(rng, info, invalid=invalid)
+        d = G.gen_document(rng, info, invalid=invalid, profile=profile)
         docs.append({"text": G.doc_text(d), "ops": [{"name": o["name"], "kind": o["kind"], "vars": o["vars"]} for o in d["ops"]], "mutations": d["mutations"]})
     reqs = []
     n = rng.randint(3, 6)
@@ -99,15 +99,17 @@ def make_case(seed_text):
             op_name = op["name"] if (op["name"] and rng.random() < 0.5) else None
         else:
             op_name = op["name"] if rng.random() < 0.9 else rng.choice([None, "Nope"])
-        mode = "conforming" if rng.random() < 0.35 else "hostile"
+        mode = "conforming" if rng.random() < (0.6 if profile == "c13" else 0.35) else "hostile"
         root_t = info["mutation"] if op["kind"] == "mutation" else info["query"]
         p_h = rng.choice([0.03, 0.08, 0.15])
+        if mode == "hostile" and rng.random() < 0.25:
+            mode, p_h = "raisy", rng.choice([0.15, 0.3])
         if rng.random() < 0.04:
             mode = "hostile"
             data = rng.choice([G.NULL, G.leaf_node(5), {"k": "list", "items": []}, {"k": "raise", "tag": 1}])
         else:
             data = G.gen_data(rng, info, G.T(root_t, True), mode, 0, p_h, max_depth=rng.choice([3, 4, 5]))
-        raw = G.gen_variables(rng, info, op, "valid" if rng.random() < 0.8 else "mixed")
+        raw = G.gen_variables(rng, info, op, "c13" if profile == "c13" else ("valid" if rng.random() < 0.8 else "mixed"))
         reqs.append({"doc": di, "op": op_name, "vars": raw, "data": data, "mode": mode})
     return {"sdl": sdl, "docs": docs, "requests": reqs, "info": info, "seed": seed_text}
 
@@ -119,6 +121,33 @@ class _Boom(RuntimeError):
     pass
 
 
+def exception_pool():
+    """The raising-resolver zoo: ONE exception instance per tag, shared by every position that
+    raises it and by all requests of a history (a pre-built module-level error constant is a common
+    way to signal "forbidden").  tag % 4: plain exception / GraphQLError without path / GraphQLError
+    subclass with extensions / GraphQLError that already carries a path (kept as it is)."""
+    from graphql import GraphQLError
+
+    class _ExtError(GraphQLError):
+        pass
+
+    pool = {}
+    for tag in range(0, 16):
+        kind = tag % 4
+        if kind == 0:
+            pool[tag] = _Boom(f"boom{tag}")
+        elif kind == 1:
+            pool[tag] = GraphQLError(f"forbidden{tag}")
+        elif kind == 2:
+            pool[tag] = _ExtError(f"ext{tag}", extensions={"code": tag})
+        else:
+            pool[tag] = GraphQLError(f"elsewhere{tag}", path=["ext", tag])
+    return pool
+
+
+_POOL = None
+
+
 def materialise(node, index=None):
     """data graph node -> the Python value handed to the executor"""
     k = node["k"]
@@ -128,7 +157,7 @@ def materialise(node, index=None):
         v = node["v"]
         return v / 2 if node["t"] == "float" else v
     if k == "raise":
-        return _Boom(f"boom{node['tag']}")
+        return _POOL[node["tag"] % 16]
     if k == "list":
         return [materialise(x, index) for x in node["items"]]
     tn = node["tn"]
@@ -341,6 +370,8 @@ def prepare_case(case, with_guards=True):
     from graphql import build_schema, parse, validate
     from graphql.execution.values import get_variable_values
 
+    global _POOL
+    _POOL = exception_pool()  # shared by all positions and all requests of this case
     schema = build_schema(case["sdl"])
     documents = [parse(d["text"]) for d in case["docs"]]
     valid = []
@@ -401,6 +432,8 @@ def check_case(case, rep, prepared, out, seen):
     from graphql import build_schema, parse
 
     schema, documents, valid, meta, line = prepared
+    global _POOL
+    _POOL = exception_pool()  # fresh instances for this case, shared by its positions and requests
     st = rep.stats
 
     def bump(k, n=1):
